@@ -268,7 +268,8 @@ def bracket : Nat → List Char → List Char → Except Err (List Char × List 
     else bracket cnt r (c :: acc)
 
 /-- `parse_line` of `do_replacement_cmake`: `pre` is `line[:index]` reversed, `rest` is `line[index:]`.
-One unit of fuel per loop iteration (and per nesting level). -/
+One unit of fuel per loop iteration (and per nesting level); after a substitution the scan resumes
+behind the substituted text, so `rest.length + 1` fuel always suffices (`Props.C14.cmake_terminates`). -/
 def parseLine (atOnly : Bool) (d : Data) :
     Nat → List Char → List Char → List Name → Except Err (List Char × List Name)
   | 0, _, _, _ => .error .fuel
@@ -278,10 +279,8 @@ def parseLine (atOnly : Bool) (d : Data) :
     | some (nm, after) =>
       if !nm.isEmpty && nm.all isCmakeChar then
         let (v, m') := varGet d nm m
-        -- line = line[:index] + value + line[next_at+1:]; index += 1
-        match v ++ after with
-        | [] => .ok (pre.reverse, m')
-        | c :: t => parseLine atOnly d f (c :: pre) t m'
+        -- line = line[:index] + value + line[next_at+1:]; index += len(value); continue
+        parseLine atOnly d f (v.reverse ++ pre) after m'
       else parseLine atOnly d f ('@' :: pre) r m
     | none => parseLine atOnly d f ('@' :: pre) r m
   | f + 1, pre, '$' :: '{' :: r, m =>
@@ -296,9 +295,8 @@ def parseLine (atOnly : Bool) (d : Data) :
           if nm.any (fun c => !isCmakeChar c) then .error .invalidChar
           else
             let (v, m2) := varGet d nm m1
-            match v ++ after with
-            | [] => .ok (pre.reverse, m2)
-            | c :: t => parseLine atOnly d f (c :: pre) t m2
+            -- line = line[:index] + value + line[end_bracket:]; index += len(value); continue
+            parseLine atOnly d f (v.reverse ++ pre) after m2
   | f + 1, pre, c :: r, m => parseLine atOnly d f (c :: pre) r m
 
 /-- `do_replacement_cmake` -/
@@ -309,7 +307,7 @@ def substCmake (atOnly : Bool) (d : Data) (fuel : Nat) (line : List Char) :
 /-- `do_define_cmake` -/
 def defineCmake (atOnly : Bool) (d : Data) (fuel : Nat) (line : List Char) : Except Err (List Char) :=
   let bool01 := hasSub sCmakedefine01 line
-  match splitWs (line.drop 1) with
+  match splitWs ((lstrip line).drop 1) with
   | _ :: nm :: extra =>
     match d.get? nm with
     | none =>
